@@ -137,3 +137,21 @@ fn reduce_initial_matches_fold() {
   while i < s.n { acc = acc.wrapping_mul(3).wrapping_add(s.items[i]); i += 1; }
   expect_aggregate(&log, s.term, Some(acc));
 }
+
+// [C03] average: the arithmetic mean of the whole input, emitted once at completion; nothing for an
+// empty input, nothing but the error with an error (the mean is checked up to 1e-6: floats)
+//@ bounded: at most 3 items (u8 values as f64)
+#[kani::proof]
+#[kani::unwind(6)]
+fn average_matches_mean() {
+  let s = any_script();
+  let log = new_log();
+  let mut sum = 0.0f64;
+  let mut i = 0;
+  while i < s.n { sum += s.items[i] as f64; i += 1; }
+  let n = s.n as f64;
+  s.map(|v| v as f64).average()
+    .map(move |a: f64| { let d = a * n - sum; if d < 1e-6 && d > -1e-6 { 1u8 } else { 0u8 } })
+    .actual_subscribe(Probe::new(&log));
+  expect_aggregate(&log, s.term, if s.n == 0 { None } else { Some(1) });
+}
